@@ -208,6 +208,8 @@ def main(pid):
         "z3 bit-vector width 4 for counters (overflow is a bad bit)",
         "queue contract lemma (E1, xh/harness_queue.py): the real RandomQueue / PriorityQueue / simple queue under CrossHair with a stubbed `random` "
         "(randrange within its documented range, shuffle = a symbolic permutation), symbolic items/priorities, operation strings of <= 8 put/get",
+        "pruning lemma (E1, xh/harness_prune.py; C01/C04 only): plans of 4-5 nodes (calls / literals by the condition's kind string) with symbolic edges and "
+        "argument-vs-dependency kinds; the engine graph of the real dry run + prune_source_literals vs the harness' transitive closure of the logical plan",
     ]
     ev.write()
     print(f"{pid} {tier}: {len(ok_inst)}/{len(results)} instances clean, {nq} queries, solver {solver_s:.0f}s, {validated} schedules replayed on real threads, exit {code}")
@@ -239,4 +241,13 @@ def lemma_conditions(pid, tier):
             cs.append(xhrun.Cond("harness_queue", "c04_queue", {"XH_Q": kind, "XH_NINIT": ninit, "XH_OPS": ops}, timeout=300,
                                  label=f"queue_contract_{kind}_init{ninit}_{ops}"))
     cs.append(xhrun.Cond("harness_queue", "c04_create_queue", {}, timeout=300, label="queue_contract_create_queue"))
+    if pid in ("C01", "C04"):
+        # plan -> engine graph: pruning keeps exactly the needed calls and every dependency between them (also through literals)
+        prune = [("clcc", "", "last"), ("cllc", "", "all"), ("cllcc", "01,12,23,14", "all")]
+        if tier == "thorough":
+            prune += [("lclc", "", "last"), ("clcc", "", "all"), ("cclc", "", "none"), ("cllc", "", "2"), ("cllcc", "01,12,23", "all"),
+                      ("clclc", "01,12,23,34", "last"), ("lcllc", "01,12,23,34", "last")]
+        for kinds, fix, out in prune:
+            cs.append(xhrun.Cond("harness_prune", "c01_prune", {"XH_PKINDS": kinds, "XH_PFIX": fix, "XH_POUT": out}, timeout=1500,
+                                 label=f"prune_{kinds}_fix{fix.replace(',', '_')}_out{out}"))
     return cs
